@@ -13,39 +13,39 @@ Record opt := mkOpt { flags : list string; dest : string; typ : string; default 
 
 
 Definition options : list opt := [
-  mkOpt ["--version"; "-v"] "version" "" "<none>" "version" "";
+  mkOpt ["-a"; "--analysis-window"] "analysis_window" "float" "0.01" "" "";
+  mkOpt ["-c"; "--channels"] "channels" "int" "1" "" "";
+  mkOpt ["-C"; "--command"] "command" "str" "<none>" "" "";
+  mkOpt ["-D"; "--debug"] "debug" "" "False" "store_true" "";
+  mkOpt ["--debug-file"] "debug_file" "str" "None" "" "";
+  mkOpt ["-d"; "--drop-trailing-silence"] "drop_trailing_silence" "" "False" "store_true" "";
+  mkOpt ["-E"; "--echo"] "echo" "" "False" "store_true" "";
+  mkOpt ["-e"; "--energy-threshold"] "energy_threshold" "float" "50" "" "";
+  mkOpt ["-F"; "--audio-frame-per-buffer"] "frame_per_buffer" "int" "1024" "" "";
   mkOpt [] "input" "" "None" "" "?";
   mkOpt ["-I"; "--input-device-index"] "input_device_index" "int" "None" "" "";
-  mkOpt ["-F"; "--audio-frame-per-buffer"] "frame_per_buffer" "int" "1024" "" "";
   mkOpt ["-f"; "--input-format"] "input_format" "str" "None" "" "";
-  mkOpt ["-M"; "--max-read"] "max_read" "float" "None" "" "";
-  mkOpt ["-L"; "--large-file"] "large_file" "" "False" "store_true" "";
-  mkOpt ["-O"; "--save-stream"] "save_stream" "str" "None" "" "";
-  mkOpt ["-o"; "--save-detections-as"] "save_detections_as" "str" "None" "" "";
   mkOpt ["-j"; "--join-detections"] "join_detections" "float" "None" "" "";
-  mkOpt ["-T"; "--output-format"] "output_format" "str" "None" "" "";
-  mkOpt ["-u"; "--use-channel"] "use_channel" "str" "None" "" "";
-  mkOpt ["-a"; "--analysis-window"] "analysis_window" "float" "0.01" "" "";
-  mkOpt ["-n"; "--min-duration"] "min_duration" "float" "0.2" "" "";
+  mkOpt ["-L"; "--large-file"] "large_file" "" "False" "store_true" "";
   mkOpt ["-m"; "--max-duration"] "max_duration" "float" "5" "" "";
+  mkOpt ["-M"; "--max-read"] "max_read" "float" "None" "" "";
   mkOpt ["-s"; "--max-silence"] "max_silence" "float" "0.3" "" "";
-  mkOpt ["-d"; "--drop-trailing-silence"] "drop_trailing_silence" "" "False" "store_true" "";
-  mkOpt ["-R"; "--strict-min-duration"] "strict_min_duration" "" "False" "store_true" "";
-  mkOpt ["-e"; "--energy-threshold"] "energy_threshold" "float" "50" "" "";
-  mkOpt ["-r"; "--rate"] "sampling_rate" "int" "16000" "" "";
-  mkOpt ["-c"; "--channels"] "channels" "int" "1" "" "";
-  mkOpt ["-w"; "--width"] "sample_width" "int" "2" "" "";
-  mkOpt ["-C"; "--command"] "command" "str" "<none>" "" "";
-  mkOpt ["-E"; "--echo"] "echo" "" "False" "store_true" "";
-  mkOpt ["-B"; "--progress-bar"] "progress_bar" "" "False" "store_true" "";
+  mkOpt ["-n"; "--min-duration"] "min_duration" "float" "0.2" "" "";
+  mkOpt ["-T"; "--output-format"] "output_format" "str" "None" "" "";
   mkOpt ["-p"; "--plot"] "plot" "" "False" "store_true" "";
-  mkOpt ["--save-image"] "save_image" "str" "<none>" "" "";
   mkOpt ["--printf"] "printf" "str" "'{id} {start} {end}'" "" "";
+  mkOpt ["-B"; "--progress-bar"] "progress_bar" "" "False" "store_true" "";
+  mkOpt ["-q"; "--quiet"] "quiet" "" "False" "store_true" "";
+  mkOpt ["-w"; "--width"] "sample_width" "int" "2" "" "";
+  mkOpt ["-r"; "--rate"] "sampling_rate" "int" "16000" "" "";
+  mkOpt ["-o"; "--save-detections-as"] "save_detections_as" "str" "None" "" "";
+  mkOpt ["--save-image"] "save_image" "str" "<none>" "" "";
+  mkOpt ["-O"; "--save-stream"] "save_stream" "str" "None" "" "";
+  mkOpt ["-R"; "--strict-min-duration"] "strict_min_duration" "" "False" "store_true" "";
   mkOpt ["--time-format"] "time_format" "str" "'%S'" "" "";
   mkOpt ["--timestamp-format"] "timestamp_format" "str" "'%Y/%m/%d %H:%M:%S'" "" "";
-  mkOpt ["-q"; "--quiet"] "quiet" "" "False" "store_true" "";
-  mkOpt ["-D"; "--debug"] "debug" "" "False" "store_true" "";
-  mkOpt ["--debug-file"] "debug_file" "str" "None" "" ""
+  mkOpt ["-u"; "--use-channel"] "use_channel" "str" "None" "" "";
+  mkOpt ["--version"; "-v"] "version" "" "<none>" "version" ""
 ].
 
 Definition kwargs : list (string * string * string) := [
@@ -64,7 +64,7 @@ Definition kwargs : list (string * string * string) := [
   ("io", "large_file", "large_file");
   ("io", "frames_per_buffer", "frame_per_buffer");
   ("io", "input_device_index", "input_device_index");
-  ("io", "record", "local:record<-plot,save_image");
+  ("io", "record", "local:record<-plot,save_image,save_stream");
   ("split", "min_dur", "min_duration");
   ("split", "max_dur", "max_duration");
   ("split", "max_silence", "max_silence");
